@@ -272,11 +272,43 @@ func (z *zoneFlow) checkIndex(b ssa.Instruction, idx ssa.Value, ln zterm) (bool,
 
 // sortContract: inside Less/Swap of a type whose Len returns len(receiver), indices i,j passed by package sort satisfy 0 <= i,j < Len().
 func (p *Prog) sortContract(fn *ssa.Function, in ssa.Instruction) (bool, string) {
-	if fn.Signature.Recv() == nil || (fn.Name() != "Less" && fn.Name() != "Swap") || len(fn.Params) != 3 {
-		return false, ""
-	}
 	ia, ok := in.(*ssa.IndexAddr)
 	if !ok {
+		return false, ""
+	}
+	// a helper method of the collection that Less / Swap hand their own receiver and one of their indices to (e.seq(i))
+	if fn.Signature.Recv() != nil && fn.Name() != "Less" && fn.Name() != "Swap" && len(fn.Params) == 2 && isIntType(fn.Params[1].Type()) {
+		if ia.X != ssa.Value(fn.Params[0]) || ia.Index != ssa.Value(fn.Params[1]) {
+			return false, ""
+		}
+		sites := p.CG().sites[fn]
+		if len(sites) == 0 {
+			return false, ""
+		}
+		why := ""
+		for _, cs := range sites {
+			l := cs.Parent()
+			args := cs.Common().Args
+			if l.Signature.Recv() == nil || (l.Name() != "Less" && l.Name() != "Swap") || len(l.Params) != 3 || len(args) != 2 {
+				return false, ""
+			}
+			if args[0] != ssa.Value(l.Params[0]) || (args[1] != ssa.Value(l.Params[1]) && args[1] != ssa.Value(l.Params[2])) {
+				return false, ""
+			}
+			// the caller itself is under the contract: check it on a synthetic access e[i] of the caller
+			nt, ok := l.Params[0].Type().(*types.Named)
+			if !ok {
+				return false, ""
+			}
+			lenM := p.methodOf(nt, "Len")
+			if lenM == nil || !p.lenReturnsLenRecv(lenM) || len(p.CG().sites[l]) > 0 {
+				return false, ""
+			}
+			why = "sort.Interface contract handed on by " + p.Name(l) + ": the receiver and one of its indices are passed unchanged, " + p.Name(lenM) + " returns len(receiver)"
+		}
+		return true, why
+	}
+	if fn.Signature.Recv() == nil || (fn.Name() != "Less" && fn.Name() != "Swap") || len(fn.Params) != 3 {
 		return false, ""
 	}
 	recv := fn.Params[0]
@@ -1100,13 +1132,27 @@ func (p *Prog) paramLenPre(fn *ssa.Function) map[*ssa.Parameter]int64 {
 				break
 			}
 			arg := args[pi]
+			at := site.(ssa.Instruction)
+			// a call made inside a local closure with a captured, never re-assigned variable as the argument: the variable holds
+			// what it was given in the defining function; judge the length there, where the value is computed
+			if cv := p.CellValue(arg); cv != nil {
+				if cin, isIn := cv.(ssa.Instruction); isIn && cv.Parent() != nil {
+					arg, caller, at = cv, cv.Parent(), cin
+					// facts about a value hold after the instruction that defines it
+					if blk := cin.Block(); blk != nil {
+						if i := indexIn(cin); i+1 < len(blk.Instrs) {
+							at = blk.Instrs[i+1]
+						}
+					}
+				}
+			}
 			var assume []zdefSpec
 			if caller == fn {
 				assume = []zdefSpec{{prm, 1}}
 			}
 			z := p.zoneFlowOf(caller, assume)
 			lt := z.lenTerm(arg)
-			if !z.leq(site.(ssa.Instruction), zterm{0, 1, true}, lt) {
+			if !z.leq(at, zterm{0, 1, true}, lt) {
 				// a field every store of which is a made slice of constant length >= 1 (the invariant of B8)
 				if k, isK := p.constBufLen(caller, arg); isK && k >= 1 {
 					continue
